@@ -184,6 +184,9 @@ def simulate(s, wn=None, **kw):
     sim = wntr.sim.WNTRSimulator(wn)
     with warnings.catch_warnings(record=True) as w:
         warnings.simplefilter("always")
+        # keep the library's own filter (wntr/sim/solvers.py turns the singular-matrix warning into an exception)
+        import scipy.sparse.linalg as spl
+        warnings.filterwarnings("error", "Matrix is exactly singular", spl.MatrixRankWarning)
         res = sim.run_sim(HW_approx=s.get("hw", "default"), **kw)
     return wrap(res, wn, [str(x.message) for x in w])
 
